@@ -67,6 +67,9 @@ inductive Res where
   | stored (stamp id : Nat)    -- a result read from the store
   | raised (o : Outcome)       -- the exception of the execution made inside this call
   | storeErr (lis : Bool)      -- the exception raised by the store step after the successful execution made inside this call
+  | joined (id : Nat)          -- (early) the call found nothing stored while the recalculation with execution ordinal `id` of
+                               -- its key is in flight and waits for it: it is handed that recalculation's outcome when it
+                               -- completes (`Early.joinedAnswer` at the `done` operation), nothing is executed for it
   | broken                     -- the decorator itself failed (malformed store content; unreachable)
   deriving DecidableEq, Repr
 
